@@ -25,7 +25,9 @@ def scenarios(ctx, n, malformed_share=0.3):
                 ops += [f"close i0 h{j}" for j in range(nparts)] + ["destroy i0"]
             elif kind == "chm":
                 nm = case["meta"]["order"][0]
-                ops = ["new chm", f"open i0 {nm}"] + [f"extract i0 h0 {j} o{j}" for j in range(min(4, len(case["members"])))]
+                k = min(4, len(case["members"]))
+                # forward, then backward: going back re-initialises the LZX decoder while an old one is live
+                ops = ["new chm", f"open i0 {nm}"] + [f"extract i0 h0 {j} o{j}" for j in list(range(k)) + list(reversed(range(k)))]
                 if case["members"]:
                     name = case["members"][-1]["name"].hex() or "="
                     ops += [f"fastopen i0 {nm}", f"fastfind i0 h1 {name}", f"ffextract i0 h1 {name} ff", "close i0 h1"]
@@ -36,6 +38,14 @@ def scenarios(ctx, n, malformed_share=0.3):
                 ops = S.generic_ops(c2)
             out.append((S.file_lines(c2) + ops, dict(family=kind + ".scenario", how=how, kind=kind,
                                                      salvage=any(o.startswith("param i0 SALVAGE 1") for o in ops))))
+    # OAB blocks whose 32-bit size fields are at or above 2^31 (the data is short): sizes handed to the host stay sane
+    import struct
+    for big in (0x80000000, 0x80000010, 0xFFFFFFF0):
+        f = struct.pack("<IIII", 3, 1, 0xFFFFFFFF, 0xFFFFFFFF) + struct.pack("<IIII", 0, 100, 100, 0) + bytes(100) + \
+            struct.pack("<IIII", 0, big, big, 0) + bytes(6000)
+        out.append(([f"file full.oab {f.hex()}", "new oab", "decompress i0 full.oab out", "destroy i0"], dict(family="oab.huge-sizes", how="directed", kind="oab")))
+        pf = struct.pack("<IIIIIII", 3, 2, 0xFFFFFFFF, 0, 0xFFFFFFFF, 0, 0) + struct.pack("<IIII", big, 50, 0, 0) + bytes(6000)
+        out.append(([f"file patch.oab {pf.hex()}", "file base.oab -", "new oab", "decompressinc i0 patch.oab base.oab out", "destroy i0"], dict(family="oab.huge-sizes", how="directed", kind="oab")))
     # a few fixtures (search, split set)
     cabs = os.path.join(C.REPO, "cabextract/test/cabs")
     out.append(([f"fileref s.cab {cabs}/search.cab", "new cab", "param i0 SEARCHBUF 64", "search i0 s.cab", "extract i0 h0 0 o0", "extract i0 h3 0 o3",
